@@ -78,6 +78,7 @@ class HookMonitor(object):
         self.calls = []
         self.events = 0
         self.outstanding = []     # every CallRecord ever handed out and not yet released
+        self.light = False        # light mode: record bounds only, never clone the solver (used under choice enumeration)
         if self._listener not in verif_hooks.listeners:
             verif_hooks.listeners.append(self._listener)
 
@@ -128,6 +129,14 @@ class HookMonitor(object):
         elif event == "batch_built":
             rec = self.cur
             if rec is None:
+                return
+            if self.light:
+                for fm, bd in p["bound_m"].items():
+                    try:
+                        rec.bounds[id(fm)] = [list(r) for r in bd.domain.range_l]
+                        rec.bounds_fm[id(fm)] = fm
+                    except Exception:
+                        pass
                 return
             btor = p["btor"]
             b = Batch()
